@@ -78,7 +78,8 @@ func (reg *Registry[E]) ReadTagsFrom(r io.Reader) (int64, error) {
 		if length < 0 {
 			return n, errors.New("registry: negative tag length: " + strconv.Itoa(int(length)))
 		}
-		values := make([]*E, length)
+		// the declared length is not trusted for the allocation: ids are appended as they are read
+		values := make([]*E, 0, min(int(length), len(reg.values)))
 
 		var id pk.VarInt
 		for i := 0; i < int(length); i++ {
@@ -92,7 +93,7 @@ func (reg *Registry[E]) ReadTagsFrom(r io.Reader) (int64, error) {
 				return n + n3, err
 			}
 
-			values[i] = &reg.values[id]
+			values = append(values, &reg.values[id])
 			n += n3
 		}
 
